@@ -80,6 +80,35 @@ def _build_fut(cls, fields):
     return f
 
 
+class KeyView:
+    """a dict seen at ONE fixed key (`key`): whether the key is present and, if so, its value.  Stands in for a table
+    `{connection handle: ...}` in a function that only ever touches the entry of one handle; any access with another
+    key is an AssertionError (= a failed obligation), so the restriction is checked, not assumed.  pop / get / `in`
+    have the semantics of dict restricted to that key (dict itself: assumption A4)."""
+
+    def __init__(self, key, present, value):
+        self.key = key
+        self.present = present
+        self.value = value
+
+    def pop(self, key, default=None):
+        assert key == self.key
+        if self.present:
+            self.present = False
+            return self.value
+        return default
+
+    def get(self, key, default=None):
+        assert key == self.key
+        if self.present:
+            return self.value
+        return default
+
+    def __contains__(self, key):
+        assert key == self.key
+        return self.present
+
+
 def _conformance():
     """Fut against the real asyncio.Future: same observable behaviour for every state x operation"""
     loop = asyncio.new_event_loop()
